@@ -147,14 +147,29 @@ func NewCombiner(params rlwe.Parameters, own ShamirPublicPoint, others []ShamirP
 // by their [ShamirPublicPoint]. It stores the resulting additive share in skOut.
 func (cmb Combiner) GenAdditiveShare(activesPoints []ShamirPublicPoint, ownPoint ShamirPublicPoint, ownShare ShamirSecretShare, skOut *rlwe.SecretKey) (err error) {
 
-	if len(activesPoints) < cmb.threshold {
+	// The first threshold distinct points of the list: a point listed twice is one player.
+	actives := make([]ShamirPublicPoint, 0, cmb.threshold)
+	for _, active := range activesPoints {
+		if len(actives) == cmb.threshold {
+			break
+		}
+		listed := false
+		for _, a := range actives {
+			listed = listed || a == active
+		}
+		if !listed {
+			actives = append(actives, active)
+		}
+	}
+
+	if len(actives) < cmb.threshold {
 		return fmt.Errorf("cannot GenAdditiveShare: Not enough active players to combine threshold shares")
 	}
 
 	prod := cmb.tmp2
 	copy(prod, cmb.one)
 
-	for _, active := range activesPoints[:cmb.threshold] {
+	for _, active := range actives {
 		//Lagrange Interpolation with the public threshold key of other active players
 		if active != ownPoint {
 			cmb.tmp1 = cmb.lagrangeCoeffs[active]
